@@ -1063,8 +1063,6 @@ private:
                 return;
             }
             rate_identity = hashed_token_identity(token_it->second);
-        } else if (token_it != request.fields.end()) {
-            rate_identity = hashed_token_identity(token_it->second);
         }
 
         std::chrono::seconds ttl = default_ttl;
@@ -1302,8 +1300,6 @@ private:
                     respond_error(std::move(error), "auth_invalid", true, false);
                     return;
                 }
-                rate_identity = hashed_token_identity(token_it->second);
-            } else if (token_it != fields.end()) {
                 rate_identity = hashed_token_identity(token_it->second);
             }
 
